@@ -1,0 +1,49 @@
+//go:build verif
+
+/*
+ * Verification export (bloom filters of the tables of a live DB, property C19). Add-only;
+ * compiled only with `-tags verif`.
+ */
+
+package badger
+
+import "github.com/dgraph-io/badger/v4/y"
+
+// VerifBloomMiss is one entry stored in a table whose user key the table's bloom filter
+// reports as absent.
+type VerifBloomMiss struct {
+	Level         int
+	TableID       uint64
+	Key           []byte // user key
+	Version       uint64
+	Meta          byte
+	ByDoesNotHave bool // Table.DoesNotHave(Hash(userKey)) returned true
+	ByFilter      bool // Filter(bytes of the index).MayContainKey(userKey) returned false
+}
+
+// VerifBloomMisses checks, for every table of every level, every stored entry against the
+// table's bloom filter, the way levelHandler.get and the key-iterator table picker do
+// (Hash of the user key). Returns the misses and the numbers of tables / entries checked.
+func (db *DB) VerifBloomMisses() (misses []VerifBloomMiss, tables, entries int) {
+	for lvl, lh := range db.lc.levels {
+		lh.RLock()
+		for _, t := range lh.tables {
+			tables++
+			bf, has := t.VerifBloomFilter()
+			it := t.NewIterator(0)
+			for it.Rewind(); it.Valid(); it.Next() {
+				entries++
+				uk := y.ParseKey(it.Key())
+				d := t.DoesNotHave(y.Hash(uk))
+				f := has && !y.Filter(bf).MayContainKey(uk)
+				if d || f {
+					misses = append(misses, VerifBloomMiss{Level: lvl, TableID: t.ID(), Key: y.Copy(uk),
+						Version: y.ParseTs(it.Key()), Meta: it.Value().Meta, ByDoesNotHave: d, ByFilter: f})
+				}
+			}
+			it.Close()
+		}
+		lh.RUnlock()
+	}
+	return misses, tables, entries
+}
